@@ -405,7 +405,11 @@ def rejections(ctx):
          ("TsGroup.rates=", g, setattr_(g, "rates", [1.0, 2.0])), ("TsGroup.rate=", g, setattr_(g, "rate", [1.0, 2.0])),
          ("TsGroup['rate']=", g, setitem_(g, "rate", [1.0, 2.0])), ("TsGroup.data=", g, setattr_(g, "data", {})),
          ("TsGroup.set_info(rate)", g, lambda: g.set_info(rate=[1.0, 2.0])), ("TsGroup.keys=", g, setattr_(g, "keys", None)),
-         ("TsGroup.nap_class=", g, setattr_(g, "nap_class", "x")), ("Tsd.nap_class=", tsd, setattr_(tsd, "nap_class", "x"))]
+         ("TsGroup.nap_class=", g, setattr_(g, "nap_class", "x")), ("Tsd.nap_class=", tsd, setattr_(tsd, "nap_class", "x")),
+         # members cannot be removed in place either (the keys, the index and the metadata rows go together)
+         ("del TsGroup[k]", g, lambda: g.__delitem__(1)), ("TsGroup.pop(k)", g, lambda: g.pop(2)), ("TsGroup.popitem()", g, lambda: g.popitem()),
+         ("TsGroup.clear()", g, lambda: g.clear()), ("TsGroup[new key]=", g, setitem_(g, 9, nap.Ts(np.arange(3.0)))),
+         ("TsGroup.update()", g, lambda: g.update({9: nap.Ts(np.arange(3.0))}))]
     for name, o, act in A:
         ctx.case(("reject", name))
         b = snap(o)
